@@ -8,7 +8,11 @@ on op histories whose lengths are placed relative to the model's cursors.
 """
 import os
 import subprocess
+import sys
 import vf
+
+sys.path.insert(0, os.path.join(vf.VERIF, "extract"))
+import c2lean  # noqa: E402
 
 PID = "C12"
 PROP_MODULES = ["UsualProofs.Props.C12"]
@@ -18,7 +22,8 @@ U32 = 0xFFFFFFFF
 
 def build(ck):
     ck.forbid_scan()
-    ck.build_proofs(PROP_MODULES, driver="drv_c12")
+    # T-tie: mbuf.h / mbuf.c re-translated into lean/Usual/Gen/C12T.lean, bridge lemmas re-checked
+    ck.build_proofs(PROP_MODULES + c2lean.ttie(ck, vf, PID), driver="drv_c12")
     # memchr/memset/memcmp(NULL, .., 0) on a never-allocated dynamic buffer is what the code
     # does by design; the property does not speak about it
     h = ck.cc(os.path.join(ck.bdir, "h"), [os.path.join(vf.HARNESS, PID, "h.c")],
@@ -194,8 +199,9 @@ def run(ck):
     ck.level = "proof"
     ck.cov["trusted_base"] = [
         "Lean 4.33 kernel", "axioms: propext, Quot.sound, Classical.choice",
-        "model lean/Usual/C12/MBuf.lean mirrors usual/mbuf.h + usual/mbuf.c (hand transcription, "
-        "tied by the correspondence run below; no translation tie)",
+        "model lean/Usual/C12/MBuf.lean mirrors usual/mbuf.h + usual/mbuf.c (hand transcription, tied by the "
+        "correspondence run below and, for 16 functions, by the translation tie: extract/c2lean.py -> "
+        "lean/Usual/Gen/C12T.lean, bridge lemmas UsualProofs/Bridge/C12T.lean, 3 bv_decide axioms there)",
         "correspondence harness harness/C12/h.c + generator in checks/C12.py, AddressSanitizer/UBSan "
         "(-fno-sanitize=nonnull-attribute) with exact-size blocks for the real pointers",
     ]
